@@ -49,6 +49,8 @@ LAYOUTS = {
     "opposite": [("g0", [(12, 72)], 1, None), ("g1", [(12, 72)], -1, None), ("g2", [(150, 210)], 1, None)],
     # a gene long enough for peptide sequences that do not fit on one line of a GenBank file
     "long": [("g0", [(12, 192)], 1, None), ("g1", [(198, 228)], -1, None)],
+    # locus tags so long that names derived from them (domain names, cross references) do not fit on one line of a GenBank file
+    "longnames": [("g0_" + "n" * 40, [(12, 72)], 1, None), ("g1_" + "n" * 40, [(78, 138)], -1, None), ("g2_" + "n" * 40, [(150, 210)], 1, None)],
     "origin": [("g0", [(12, 72)], 1, None), ("g1", [(78, 138)], -1, None), ("g2", [(210, 240), (0, 30)], 1, None)],
     "origin-reverse": [("g0", [(30, 90)], 1, None), ("g1", [(100, 160)], 1, None), ("g2", [(222, 240), (0, 42)], -1, None)],
     # an origin-spanning gene with genes shortly before and after it and one far away: with the "spread" rules this gives one
@@ -422,6 +424,8 @@ def specs(tier):
                     if rules is None and sideload is None:
                         continue
                     if layout == "long" and (rules, sideload) not in ((None, "both"), ("single", "sub")):
+                        continue
+                    if layout == "longnames" and (rules, sideload) != (None, "both"):
                         continue
                     for extras in extra_sets:
                         if "prepeptide-long" in extras and layout != "long":
